@@ -29,6 +29,8 @@ type Facts struct {
 	Allowed    [][2]int               `json:"allowed"`
 	AllowedWhy []string               `json:"allowed_why"`
 	Anchors    map[string]int         `json:"anchors"`
+	Secure     []int                  `json:"secure"`
+	Direct     []int                  `json:"direct"`
 	Extra      map[string]interface{} `json:"extra"`
 }
 
@@ -156,6 +158,29 @@ func (f *Facts) BadReferences() []Violation {
 		}
 	}
 	return res
+}
+
+// ReachableFrom returns the set of nodes reachable from the given nodes.
+func (f *Facts) ReachableFrom(from []int) map[int]bool {
+	seen := map[int]bool{}
+	var queue []int
+	for _, s := range from {
+		if !seen[s] {
+			seen[s] = true
+			queue = append(queue, s)
+		}
+	}
+	for len(queue) > 0 {
+		x := queue[0]
+		queue = queue[1:]
+		for _, y := range f.Succ[x] {
+			if !seen[y] {
+				seen[y] = true
+				queue = append(queue, y)
+			}
+		}
+	}
+	return seen
 }
 
 // ShortestPath returns a shortest path between two named nodes (diagnostics).
